@@ -209,17 +209,20 @@ impl ContextualLookupBuilder<SubstitutionLookup> {
         id
     }
 
+    /// Add the (target, replacement sequence) pairs of one inline rule.
+    ///
+    /// They all go in the same lookup, the one whose id is returned.
     pub(crate) fn add_anon_gsub_type_2(
         &mut self,
-        target: GlyphId16,
-        replacements: Vec<GlyphId16>,
+        rules: Vec<(GlyphId16, Vec<GlyphId16>)>,
     ) -> LookupId {
         let (lookup, id) = self.find_or_create_anon_lookup(
             |existing| match existing {
-                SubstitutionLookup::Multiple(subtables) => subtables
-                    .subtables
-                    .iter()
-                    .all(|subt| subt.can_add(target, &replacements)),
+                SubstitutionLookup::Multiple(subtables) => subtables.subtables.iter().all(|subt| {
+                    rules
+                        .iter()
+                        .all(|(target, replacement)| subt.can_add(*target, replacement))
+                }),
                 _ => false,
             },
             |flags, mark_set| SubstitutionLookup::Multiple(LookupBuilder::new(flags, mark_set)),
@@ -229,7 +232,9 @@ impl ContextualLookupBuilder<SubstitutionLookup> {
             unreachable!("per logic above we only return this variant");
         };
         let sub = subtables.last_mut().unwrap();
-        sub.insert(target, replacements);
+        for (target, replacement) in rules {
+            sub.insert(target, replacement);
+        }
         id
     }
 
